@@ -18,7 +18,7 @@ ASSUMPTIONS = ['unit norm within 1e-9 for quaternions, SO(3) membership within 1
                'acc and mag at least 1 degree from parallel, all samples non-zero (as in the statement)',
                'bounded to histories of length <= 3 over the 26 lattice directions / 6 poses; magnitudes 1e-3 ... 1e3',
                'default magnetic references are never used: every estimator gets an explicit dip / reference']
-REQUIRED_CLASSES = ['float32', 'rate-ladder', 'containers', 'apriori-containers', 'single-frame', 'recursive', 'pose:level', 'pose:inverted', 'pose:vertical', 'history:jump']
+REQUIRED_CLASSES = ['float32', 'zero-rate', 'rate-ladder', 'containers', 'apriori-containers', 'single-frame', 'recursive', 'pose:level', 'pose:inverted', 'pose:vertical', 'history:jump']
 MAG_Q = [(9.81, 45.0), (1.0, 1.0)]
 MAG_T = [(sa, sm) for sa in (1e-3, 9.81, 1e3) for sm in (1e-3, 45.0, 1e3)]
 GYR = [np.array([0.01, -0.02, 0.03]), np.array([1.0, -2.0, 0.5]), np.array([0.0, 0.0, 1e-3])]
@@ -275,6 +275,39 @@ def job_gyro_ladder(ctx, key, ci):
                         ctx.fail(f'{key}: streaming update raises (rate ladder)', k, f'{type(ex).__name__}: {ex}'[:120], 'valid attitudes')
                 ctx.seen((key, ci, 'rate', mi, di, pz))
         ctx.cls('rate-ladder')
+    # a gyroscope that reads EXACTLY zero on some or all samples (a sensor at rest on an ideal gyro; -0.0 included) while acc / mag are valid
+    for zn, zrows in (('middle row', (1,)), ('last row', (2,)), ('rows 1-2', (1, 2)), ('all rows', (0, 1, 2)), ('row 1 = -0.0', (1,))):
+        for pz in (0, 4, 5):
+            g = np.tile(GYR[1], (3, 1))
+            for t_ in zrows:
+                g[t_] = -0.0 if '-0.0' in zn else 0.0
+            acc = np.tile(P6[pz][0] * 9.81, (3, 1)); mag = np.tile(P6[pz][1] * 45.0, (3, 1))
+            k = f'filter={key} cfg#{ci} zero-rate {zn} pose#{pz}'
+            ctx.evals += 1
+            ctx.transitions += 3
+            try:
+                np.random.seed(1)
+                out = r.output(r.batch(g, acc, mag, cfg))
+                ok, why = _valid_rows(out, 'q', 3)
+                if not ok:
+                    ctx.fail(f'{key}: one valid attitude per sample (exactly zero angular rate on some samples)', k, why, 'finite real unit rows')
+            except Exception as ex:
+                ctx.fail(f'{key}: raises (exactly zero angular rate on some samples)', k, f'{type(ex).__name__}: {ex}'[:120], 'valid attitudes')
+            if r.step_fn is not None:
+                ctx.evals += 1
+                try:
+                    np.random.seed(1)
+                    inst = r.fresh(cfg)
+                    q = np.array([1.0, 0.0, 0.0, 0.0]); rows = []
+                    for t_ in range(3):
+                        q = r.step(inst, q, g[t_], acc[t_], mag[t_] if r.has_mag else None)
+                        rows.append(np.array(q, float)); ctx.transitions += 1
+                    ok, why = _valid_rows(np.array(rows), 'q', 3)
+                    if not ok:
+                        ctx.fail(f'{key}: streaming update returns one valid attitude per sample (exactly zero angular rate)', k, why, 'finite real unit rows')
+                except Exception as ex:
+                    ctx.fail(f'{key}: streaming update raises (exactly zero angular rate)', k, f'{type(ex).__name__}: {ex}'[:120], 'valid attitudes')
+        ctx.cls('zero-rate')
     # the same streaming step with the samples in other containers (values unchanged)
     if r.step_fn is not None:
         for cn, conv in CONTAINERS:
